@@ -177,6 +177,8 @@ def run(ctx):
     # ---- R1 second result rejected (shared with C03.R5) -------------------
     r1 = ctx.rule('R1', 'a second result for a completed action is rejected '
                   'before any write and rolls the transaction back', 'GD')
+    from mstatic.rules import shared as _shc
+    _shc.cas_primitive_reports_loss(ctx, r1)
     f = prog.func('mistral.engine.actions.RegularAction.complete')
     cfg = ctx.cfg(f)
     n_w = 0
